@@ -194,6 +194,11 @@ void evalCase(EnumCtx &ctx, const Case &c)
         if (e.body.contains(QLatin1String("INNERMOSTBODY"))) {
             innermostPresented = true;
         }
+        // whatever is presented as carbon-forwarded must be the forwarded message (not an empty or otherwise invented one)
+        if (e.forwardedFlag && !e.body.contains(QLatin1String("INNERBODY")) && !e.from.contains(QLatin1String("victim@")) && !e.body.contains(QLatin1String("INNERMOSTBODY"))) {
+            ctx.violation(QStringLiteral("C11/forwarded-flag-on-message-that-was-not-forwarded:%1:%2").arg(QString::fromLatin1(configNames[c.config]), QString::fromLatin1(structNames[c.structure])),
+                          QStringLiteral("outer %1 -> presented as carbon-forwarded: %2 (%3)").arg(QString::fromUtf8(outer.left(200)), seen.last(), QString::fromUtf8(e.xml.left(200))), caseJson(c));
+        }
     }
     ctx.count(QStringLiteral("presented=%1").arg(presented));
     ctx.outcome(QStringLiteral("%1/%2").arg(presented).arg(seen.join(QLatin1Char(';')).left(80)));
